@@ -17,12 +17,27 @@
 //! * monitor       : `append` leaves the other vector empty (or untouched on panic),
 //!   `len <= capacity`.
 //!
-//! Optional: `--budget-secs N` stops the enumeration after N seconds (stats then say
+//! Memory-safety net: the bin installs a red-zone allocator (32+ bytes before, 128 bytes after
+//! every block, filled with a canary). After every step the blocks allocated by the vector under
+//! test are checked, so a write of one element past the allocation is reported as a `monitor`
+//! disagreement with the exact input instead of corrupting the heap. A first, single-threaded
+//! "pre-flight" phase runs a few targeted boundary sequences per configuration (iterator that
+//! under-reports its size hint on an exactly-full vector, at minimum capacity and right after
+//! `reserve_exact`) and stops at the first disagreement.
+//!
+//! Crash localisation: with `VERIF_TRACE=<path>` in the environment the run is single-threaded
+//! (same jobs, same order) and, before every evaluated step, `<path>` is overwritten with one
+//! line `<configuration> ; <op> ; <op> ; …` — after a crash the last line is the failing input.
+//!
+//! Optional: `--no-preflight` skips the pre-flight phase; `--budget-secs N` stops the enumeration after N seconds (stats then say
 //! `"exhaustive": false`).
 //!
 //! Exit code 0 = no disagreement, 1 = disagreement(s), 2 = internal error.
 
+use std::alloc::{GlobalAlloc, Layout, System};
 use std::any::Any;
+use std::cell::Cell;
+use std::sync::atomic::{AtomicUsize, Ordering};
 use std::borrow::Cow;
 use std::collections::{BTreeMap, HashSet};
 use std::ops::Bound;
@@ -35,19 +50,194 @@ use hipstr::vecs::InlineVec;
 use hipverif_harness::util::{parse_cli, LeanDriver, Rng};
 
 // ---------------------------------------------------------------------------------------------
+// Red-zone allocator
+// ---------------------------------------------------------------------------------------------
+
+/// Every block is surrounded by canary bytes; blocks allocated while the current thread is
+/// "watching" (i.e. by the vector under test) are remembered in a small per-thread table so
+/// that their red zones can be checked after every step. The allocator never allocates.
+mod redzone {
+    use super::*;
+
+    const PRE_MIN: usize = 32;
+    const POST: usize = 128;
+    const CANARY: u8 = 0xA5;
+    const SLOTS: usize = 16;
+
+    /// Red-zone violations found when a block was freed, process-wide.
+    pub static HITS_AT_FREE: AtomicUsize = AtomicUsize::new(0);
+
+    struct Table {
+        on: Cell<bool>,
+        /// red-zone violations found when this thread freed a block
+        hits: Cell<usize>,
+        /// (user pointer, size, pre) — pointer 0 = free slot
+        slots: [Cell<(usize, usize, usize)>; SLOTS],
+    }
+    thread_local! {
+        static TABLE: Table = const {
+            Table { on: Cell::new(false), hits: Cell::new(0), slots: [const { Cell::new((0, 0, 0)) }; SLOTS] }
+        };
+    }
+
+    fn pre_for(align: usize) -> (usize, usize) {
+        let a = align.max(16);
+        (a, (PRE_MIN + a - 1) / a * a)
+    }
+
+    unsafe fn intact(user: usize, size: usize, pre: usize) -> bool {
+        let before = std::slice::from_raw_parts((user - pre) as *const u8, pre);
+        let after = std::slice::from_raw_parts((user + size) as *const u8, POST);
+        before.iter().all(|b| *b == CANARY) && after.iter().all(|b| *b == CANARY)
+    }
+
+    pub struct Guarded;
+
+    unsafe impl GlobalAlloc for Guarded {
+        unsafe fn alloc(&self, layout: Layout) -> *mut u8 {
+            let (a, pre) = pre_for(layout.align());
+            let total = pre + layout.size() + POST;
+            let Ok(l) = Layout::from_size_align(total, a) else { return std::ptr::null_mut() };
+            let raw = System.alloc(l);
+            if raw.is_null() {
+                return raw;
+            }
+            std::ptr::write_bytes(raw, CANARY, pre);
+            std::ptr::write_bytes(raw.add(pre + layout.size()), CANARY, POST);
+            let user = raw.add(pre);
+            let _ = TABLE.try_with(|t| {
+                if t.on.get() {
+                    if let Some(slot) = t.slots.iter().find(|c| c.get().0 == 0) {
+                        slot.set((user as usize, layout.size(), pre));
+                    }
+                }
+            });
+            user
+        }
+
+        unsafe fn dealloc(&self, ptr: *mut u8, layout: Layout) {
+            let (a, pre) = pre_for(layout.align());
+            let _ = TABLE.try_with(|t| {
+                if let Some(slot) = t.slots.iter().find(|c| c.get().0 == ptr as usize) {
+                    slot.set((0, 0, 0));
+                }
+            });
+            if !intact(ptr as usize, layout.size(), pre) {
+                HITS_AT_FREE.fetch_add(1, Ordering::Relaxed);
+                let _ = TABLE.try_with(|t| t.hits.set(t.hits.get() + 1));
+            }
+            let total = pre + layout.size() + POST;
+            System.dealloc(ptr.sub(pre), Layout::from_size_align_unchecked(total, a));
+        }
+        // `realloc` / `alloc_zeroed`: the default implementations go through `alloc`/`dealloc`.
+    }
+
+    /// Remember the blocks allocated by this thread from now on (`true`) or stop (`false`).
+    pub fn watch(on: bool) {
+        let _ = TABLE.try_with(|t| t.on.set(on));
+    }
+
+    /// Number of damaged blocks this thread has freed so far.
+    pub fn hits() -> usize {
+        TABLE.try_with(|t| t.hits.get()).unwrap_or(0)
+    }
+
+    /// Checks the red zones of every remembered live block of this thread.
+    pub fn check_watched() -> Option<String> {
+        TABLE
+            .try_with(|t| {
+                for c in &t.slots {
+                    let (user, size, pre) = c.get();
+                    if user != 0 && !unsafe { intact(user, size, pre) } {
+                        return Some(format!("a live block of {size} bytes has a damaged red zone"));
+                    }
+                }
+                None
+            })
+            .ok()
+            .flatten()
+    }
+}
+
+#[global_allocator]
+static GLOBAL: redzone::Guarded = redzone::Guarded;
+
+// ---------------------------------------------------------------------------------------------
 // Element and prefix types
 // ---------------------------------------------------------------------------------------------
 
-trait Elem: Copy + Clone + PartialEq + std::fmt::Debug + Send + 'static {
+trait Elem: Clone + PartialEq + std::fmt::Debug + Send + 'static {
     const NAME: &'static str;
     /// 1 for the zero-sized type (every value prints as 0), 200 otherwise.
     const MODULUS: u64;
+    /// Whether the `T: Copy` entry points exist for this element type.
+    const COPY: bool;
     fn from_nat(n: u64) -> Self;
     fn to_nat(&self) -> u64;
+    // The `T: Copy`-only entry points (`false` / `None`: not available for this type).
+    fn iv_ext_copy<const CAP: usize>(v: &mut InlineVec<Self, CAP>, s: &[Self]) -> bool;
+    fn iv_ext_within_copy<const CAP: usize>(
+        v: &mut InlineVec<Self, CAP>,
+        r: (Bound<usize>, Bound<usize>),
+    ) -> bool;
+    fn iv_from_slice_copy<const CAP: usize>(s: &[Self]) -> Option<InlineVec<Self, CAP>>;
+    fn tv_ext_copy<P: Prefix>(v: &mut ThinVec<Self, P>, s: &[Self]) -> bool;
+    fn tv_from_slice_copy<P: Prefix>(s: &[Self]) -> Option<ThinVec<Self, P>>;
+}
+
+macro_rules! copy_ops {
+    () => {
+        const COPY: bool = true;
+        fn iv_ext_copy<const CAP: usize>(v: &mut InlineVec<Self, CAP>, s: &[Self]) -> bool {
+            v.extend_from_slice_copy(s);
+            true
+        }
+        fn iv_ext_within_copy<const CAP: usize>(
+            v: &mut InlineVec<Self, CAP>,
+            r: (Bound<usize>, Bound<usize>),
+        ) -> bool {
+            v.extend_from_within_copy(r);
+            true
+        }
+        fn iv_from_slice_copy<const CAP: usize>(s: &[Self]) -> Option<InlineVec<Self, CAP>> {
+            Some(InlineVec::from_slice_copy(s))
+        }
+        fn tv_ext_copy<P: Prefix>(v: &mut ThinVec<Self, P>, s: &[Self]) -> bool {
+            v.extend_from_slice_copy(s);
+            true
+        }
+        fn tv_from_slice_copy<P: Prefix>(s: &[Self]) -> Option<ThinVec<Self, P>> {
+            Some(ThinVec::from_slice_copy(s))
+        }
+    };
+}
+macro_rules! no_copy_ops {
+    () => {
+        const COPY: bool = false;
+        fn iv_ext_copy<const CAP: usize>(_: &mut InlineVec<Self, CAP>, _: &[Self]) -> bool {
+            false
+        }
+        fn iv_ext_within_copy<const CAP: usize>(
+            _: &mut InlineVec<Self, CAP>,
+            _: (Bound<usize>, Bound<usize>),
+        ) -> bool {
+            false
+        }
+        fn iv_from_slice_copy<const CAP: usize>(_: &[Self]) -> Option<InlineVec<Self, CAP>> {
+            None
+        }
+        fn tv_ext_copy<P: Prefix>(_: &mut ThinVec<Self, P>, _: &[Self]) -> bool {
+            false
+        }
+        fn tv_from_slice_copy<P: Prefix>(_: &[Self]) -> Option<ThinVec<Self, P>> {
+            None
+        }
+    };
 }
 
 impl Elem for u8 {
     const NAME: &'static str = "u8";
+    copy_ops!();
     const MODULUS: u64 = 200;
     fn from_nat(n: u64) -> Self {
         n as u8
@@ -58,6 +248,7 @@ impl Elem for u8 {
 }
 impl Elem for u64 {
     const NAME: &'static str = "u64";
+    copy_ops!();
     const MODULUS: u64 = 200;
     fn from_nat(n: u64) -> Self {
         n
@@ -68,6 +259,7 @@ impl Elem for u64 {
 }
 impl Elem for () {
     const NAME: &'static str = "unit";
+    copy_ops!();
     const MODULUS: u64 = 1;
     fn from_nat(_: u64) -> Self {}
     fn to_nat(&self) -> u64 {
@@ -83,6 +275,7 @@ struct A64 {
 }
 impl Elem for A64 {
     const NAME: &'static str = "a64";
+    copy_ops!();
     const MODULUS: u64 = 200;
     fn from_nat(n: u64) -> Self {
         A64 { v: n, chk: [!n; 7] }
@@ -100,6 +293,7 @@ impl Elem for A64 {
 struct P16(u64, u64);
 impl Elem for P16 {
     const NAME: &'static str = "p16";
+    copy_ops!();
     const MODULUS: u64 = 200;
     fn from_nat(n: u64) -> Self {
         P16(n, !n)
@@ -110,6 +304,22 @@ impl Elem for P16 {
         } else {
             u64::MAX
         }
+    }
+}
+
+/// Heap-owning element (no `Copy` entry points; a double drop or a leak of an element shows up
+/// as an allocator complaint).
+#[derive(Clone, PartialEq, Debug)]
+struct Bx(Box<u32>);
+impl Elem for Bx {
+    const NAME: &'static str = "box";
+    no_copy_ops!();
+    const MODULUS: u64 = 200;
+    fn from_nat(n: u64) -> Self {
+        Bx(Box::new(n as u32))
+    }
+    fn to_nat(&self) -> u64 {
+        *self.0 as u64
     }
 }
 
@@ -554,13 +764,13 @@ macro_rules! iv_arrays {
             const SIZES: &'static [usize] = &[$($n),*];
             fn ext_array(&mut self, items: &[T]) {
                 match items.len() {
-                    $( $n => { let a: [T; $n] = core::array::from_fn(|i| items[i]); self.extend_from_array(a) } )*
+                    $( $n => { let a: [T; $n] = core::array::from_fn(|i| items[i].clone()); self.extend_from_array(a) } )*
                     n => panic!("harness: no array length {n}"),
                 }
             }
             fn from_array(items: &[T]) -> Self {
                 match items.len() {
-                    $( $n => { let a: [T; $n] = core::array::from_fn(|i| items[i]); Self::from(a) } )*
+                    $( $n => { let a: [T; $n] = core::array::from_fn(|i| items[i].clone()); Self::from(a) } )*
                     n => panic!("harness: no array length {n}"),
                 }
             }
@@ -578,7 +788,7 @@ fn tv_from_array<T: Elem, P: Prefix>(items: &[T]) -> ThinVec<T, P> {
     macro_rules! arms {
         ($($n:literal),*) => {
             match items.len() {
-                $( $n => { let a: [T; $n] = core::array::from_fn(|i| items[i]); ThinVec::from(a) } )*
+                $( $n => { let a: [T; $n] = core::array::from_fn(|i| items[i].clone()); ThinVec::from(a) } )*
                 n => panic!("harness: no array length {n}"),
             }
         };
@@ -678,7 +888,9 @@ where
                     ok()
                 }
                 Op::ExtCopy(items) => {
-                    v.extend_from_slice_copy(&elems::<T>(items));
+                    if !T::iv_ext_copy(v, &elems::<T>(items)) {
+                        return UNSUPPORTED.to_string();
+                    }
                     ok()
                 }
                 Op::ExtArray(items) => {
@@ -690,7 +902,9 @@ where
                     ok()
                 }
                 Op::ExtWithinCopy(a, b) => {
-                    v.extend_from_within_copy((a.bound(), b.bound()));
+                    if !T::iv_ext_within_copy(v, (a.bound(), b.bound())) {
+                        return UNSUPPORTED.to_string();
+                    }
                     ok()
                 }
                 Op::ExtIter(h, items) => {
@@ -752,7 +966,10 @@ where
                         Src::Vec => InlineVec::from(e),
                         Src::Other => InlineVec::from(ThinVec::<T, Reserved>::from(&e[..])),
                         Src::Slice => InlineVec::from(&e[..]),
-                        Src::SliceCopy => InlineVec::from_slice_copy(&e),
+                        Src::SliceCopy => match T::iv_from_slice_copy(&e) {
+                            Some(n) => n,
+                            None => return UNSUPPORTED.to_string(),
+                        },
                         Src::CowB => InlineVec::from(Cow::Borrowed(&e[..])),
                         Src::CowO => InlineVec::from(Cow::<[T]>::Owned(e)),
                         Src::Iter => Hinted { it: e.into_iter(), hint: *hint }.collect(),
@@ -856,7 +1073,9 @@ impl<T: Elem, P: Prefix> Subject for TvSub<T, P> {
                     ok()
                 }
                 Op::ExtCopy(items) => {
-                    v.extend_from_slice_copy(&elems::<T>(items));
+                    if !T::tv_ext_copy(v, &elems::<T>(items)) {
+                        return UNSUPPORTED.to_string();
+                    }
                     ok()
                 }
                 Op::ExtWithin(a, b) => {
@@ -947,7 +1166,10 @@ impl<T: Elem, P: Prefix> Subject for TvSub<T, P> {
                         Src::Vec => ThinVec::from(e),
                         Src::Other => ThinVec::from(InlineVec::<T, 127>::from(&e[..])),
                         Src::Slice => ThinVec::from(&e[..]),
-                        Src::SliceCopy => ThinVec::from_slice_copy(&e),
+                        Src::SliceCopy => match T::tv_from_slice_copy(&e) {
+                            Some(n) => n,
+                            None => return UNSUPPORTED.to_string(),
+                        },
                         Src::CowB => ThinVec::from(Cow::Borrowed(&e[..])),
                         Src::CowO => ThinVec::from(Cow::<[T]>::Owned(e)),
                         Src::Iter => Hinted { it: e.into_iter(), hint: *hint }.collect(),
@@ -1176,7 +1398,7 @@ impl<T: Elem> Subject for Oracle<T> {
 // Configurations
 // ---------------------------------------------------------------------------------------------
 
-const TYPES: [&str; 5] = ["u8", "u64", "unit", "a64", "p16"];
+const TYPES: [&str; 6] = ["u8", "u64", "unit", "a64", "p16", "box"];
 const CAPS: [usize; 5] = [1, 2, 7, 23, 127];
 const PREFIXES: [&str; 3] = ["reserved", "unit", "p32"];
 
@@ -1193,6 +1415,8 @@ struct Rig {
     oracle: Box<dyn Subject>,
     lean_config: String,
     modulus: u64,
+    /// the element type has the `T: Copy` entry points
+    copy: bool,
     array_sizes: &'static [usize],
     /// ThinVec: `MINIMAL_CAPACITY` as observed on `new()`.
     min_cap: usize,
@@ -1236,6 +1460,7 @@ impl Config {
                     oracle: Box::new(Oracle::<T>::new()),
                     lean_config: format!("ivec {CAP}"),
                     modulus: T::MODULUS,
+                    copy: T::COPY,
                     array_sizes: <InlineVec<T, CAP> as ArrayOps<T>>::SIZES,
                     min_cap: CAP,
                 }
@@ -1264,6 +1489,7 @@ impl Config {
                         std::mem::align_of::<P>()
                     ),
                     modulus: T::MODULUS,
+                    copy: T::COPY,
                     array_sizes: TV_ARRAY_SIZES,
                     min_cap,
                 }
@@ -1281,11 +1507,13 @@ impl Config {
             (Some(c), "unit") => iv::<()>(c),
             (Some(c), "a64") => iv::<A64>(c),
             (Some(c), "p16") => iv::<P16>(c),
+            (Some(c), "box") => iv::<Bx>(c),
             (None, "u8") => tv::<u8>(self.prefix),
             (None, "u64") => tv::<u64>(self.prefix),
             (None, "unit") => tv::<()>(self.prefix),
             (None, "a64") => tv::<A64>(self.prefix),
             (None, "p16") => tv::<P16>(self.prefix),
+            (None, "box") => tv::<Bx>(self.prefix),
             _ => unreachable!(),
         }
     }
@@ -1339,6 +1567,29 @@ struct Session {
     rig: Rig,
     lean: LeanDriver,
     ops_run: u64,
+    /// (only in trace mode) the operations applied since the last reset
+    history: Vec<String>,
+}
+
+/// `VERIF_TRACE=<path>`: the file that always holds the input being executed.
+static TRACE: std::sync::OnceLock<std::fs::File> = std::sync::OnceLock::new();
+
+fn tracing() -> bool {
+    TRACE.get().is_some()
+}
+
+fn trace_write(line: &str) {
+    use std::os::unix::fs::FileExt;
+    static LAST_LEN: AtomicUsize = AtomicUsize::new(0);
+    if let Some(f) = TRACE.get() {
+        let mut buf = line.as_bytes().to_vec();
+        buf.push(b'\n');
+        let _ = f.write_all_at(&buf, 0);
+        // truncate only when the previous line was longer (one syscall less most of the time)
+        if LAST_LEN.swap(buf.len(), Ordering::Relaxed) > buf.len() {
+            let _ = f.set_len(buf.len() as u64);
+        }
+    }
 }
 
 struct StepOutcome {
@@ -1352,13 +1603,12 @@ impl Session {
     fn new(cfg: Config, lean_path: &str) -> Result<Session, String> {
         let rig = cfg.rig();
         let lean = LeanDriver::spawn(lean_path, &[]).map_err(|e| format!("spawn {lean_path}: {e}"))?;
-        Ok(Session { cfg, rig, lean, ops_run: 0 })
+        Ok(Session { cfg, rig, lean, ops_run: 0, history: vec![] })
     }
 
     /// Resets the three sides. Returns issues (initial capacity mismatch).
     fn reset(&mut self) -> Result<Vec<(&'static str, String, String)>, String> {
-        self.rig.imp.reset();
-        self.rig.oracle.reset();
+        self.reset_local();
         let line = self.lean.ask(&self.rig.lean_config.clone()).map_err(|e| e.to_string())?;
         let (len, cap, vals) = self.rig.imp.observe();
         let mine = format!("ok | {}", show_state(len, cap, &vals));
@@ -1369,11 +1619,31 @@ impl Session {
         }
     }
 
+    /// Resets the implementation and the oracle (not the Lean driver).
+    fn reset_local(&mut self) {
+        redzone::watch(true);
+        self.rig.imp.reset();
+        redzone::watch(false);
+        self.rig.oracle.reset();
+        self.history.clear();
+    }
+
+    /// Runs `op` on the real vector; its allocations are remembered for the red-zone check.
+    fn imp_apply(&mut self, op: &Op) -> String {
+        redzone::watch(true);
+        let r = self.rig.imp.apply(op);
+        redzone::watch(false);
+        r
+    }
+
     /// Applies `op` to the implementation and the oracle only (keeps the oracle in step with
     /// the capacity rule). Used to rebuild a state.
     fn apply_silent(&mut self, op: &Op) {
+        if tracing() {
+            self.history.push(op.line());
+        }
         let (_, _, pre) = self.rig.oracle.observe();
-        let r = self.rig.imp.apply(op);
+        let r = self.imp_apply(op);
         let _ = self.rig.imp.take_monitor();
         if r == UNSUPPORTED {
             return;
@@ -1401,11 +1671,29 @@ impl Session {
     fn step(&mut self, op: &Op, slot: Option<usize>) -> Result<StepOutcome, String> {
         self.ops_run += 1;
         let mut issues = vec![];
+        if tracing() {
+            self.history.push(op.line());
+            trace_write(&format!("{} ; {}", self.cfg.line(), self.history.join(" ; ")));
+        }
         let (_, cap_before, _) = self.rig.imp.observe();
         let (_, _, pre) = self.rig.oracle.observe();
-        let impl_ret = self.rig.imp.apply(op);
+        let hits_before = redzone::hits();
+        let impl_ret = self.imp_apply(op);
+        // before anything else touches the heap: did the operation write outside its blocks?
+        let damaged = redzone::check_watched();
+        let hits = redzone::hits();
         let (len, cap, vals) = self.rig.imp.observe();
         let impl_line = format!("{impl_ret} | {}", show_state(len, cap, &vals));
+        if let Some(d) = damaged {
+            issues.push(("monitor", "no write outside the vector's allocation".into(), format!("{d}; {impl_line}")));
+        }
+        if hits != hits_before {
+            issues.push((
+                "monitor",
+                "no write outside an allocation".into(),
+                format!("a block freed during this step had a damaged red zone; {impl_line}"),
+            ));
+        }
         if let Some(m) = self.rig.imp.take_monitor() {
             issues.push(("monitor", "other vector untouched after a panicking append".into(), m));
         }
@@ -1520,6 +1808,7 @@ struct View {
     cap: usize,
     min_cap: usize,
     modulus: u64,
+    copy: bool,
 }
 
 impl View {
@@ -1618,6 +1907,12 @@ fn alphabet(v: View, sizes: &[usize], depth: usize) -> Vec<Op> {
         ops.push(Op::TryExtWithin(B::U, B::U));
         ops.push(Op::TryExtWithin(B::I(0), B::I(l)));
         ops.push(Op::ExtIter(2, payload(1, val(5), m)));
+        // an iterator that under-reports: the hint is exactly the remaining capacity, one or
+        // two more items follow (the `reserve(1)` of item number `hint` is what makes room)
+        ops.push(Op::ExtIter(fit, payload(fit + 1, val(14), m)));
+        ops.push(Op::ExtIter(fit, payload(fit + 2, val(14), m)));
+        let h = v.min_cap.min(130);
+        ops.push(Op::From(Src::Iter, h, payload(h + 1, val(15), m)));
         ops.push(Op::Append(Kind::Ivec, payload(fit.min(127), val(11), m)));
         ops.push(Op::TryDrain(B::I(l + 1), B::U, "".into(), false));
         ops.push(Op::TryDrain(B::U, B::X(lm1), "bn".into(), false));
@@ -1798,6 +2093,11 @@ fn random_op(rng: &mut Rng, v: View, sizes: &[usize]) -> Op {
             29 => Op::WithCap(if rng.chance(1, 30) { usize::MAX } else { rng.below(70) }),
             _ => continue,
         };
+        if !v.copy
+            && matches!(op, Op::ExtCopy(_) | Op::ExtWithinCopy(..) | Op::From(Src::SliceCopy, ..))
+        {
+            continue;
+        }
         return op;
     }
 }
@@ -1811,6 +2111,8 @@ enum Mode {
     /// `start`: 0 = from empty, 1 = from `cap - 1` elements, 2 = from `cap` elements.
     Exhaustive { depth: usize, start: usize },
     Random { sequences: usize, length: usize, seed: u64 },
+    /// the targeted boundary sequences `PREFLIGHT`
+    Preflight,
 }
 
 #[derive(Clone, Debug)]
@@ -1884,6 +2186,7 @@ impl Worker<'_> {
             cap,
             min_cap: self.session.rig.min_cap,
             modulus: self.session.rig.modulus,
+            copy: self.session.rig.copy,
         }
     }
 
@@ -1901,11 +2204,21 @@ impl Worker<'_> {
     }
 
     fn report(&mut self, ops: &[Op], issues: &[(&'static str, String, String)]) -> Result<(), String> {
-        for (kind, _, _) in issues {
+        for (kind, expected, observed) in issues {
             if self.found >= MAX_DISAGREEMENTS_PER_JOB {
                 return Ok(());
             }
-            let d = self.session.shrink(ops, kind)?;
+            // crash-localisation runs do not spend time on shrinking
+            let d = if tracing() {
+                Disagreement {
+                    kind,
+                    input: self.session.input_lines(ops),
+                    expected: expected.clone(),
+                    observed: observed.clone(),
+                }
+            } else {
+                self.session.shrink(ops, kind)?
+            };
             if self.local.seen_inputs.insert((d.kind, d.input.clone())) {
                 self.found += 1;
                 self.local.disagreements.push(d);
@@ -1916,8 +2229,7 @@ impl Worker<'_> {
 
     /// Rebuilds implementation + oracle at the end of `path` (the Lean side keeps its slots).
     fn rebuild(&mut self, path: &[Op]) {
-        self.session.rig.imp.reset();
-        self.session.rig.oracle.reset();
+        self.session.reset_local();
         for op in path {
             self.session.apply_silent(op);
         }
@@ -1997,6 +2309,28 @@ impl Worker<'_> {
                     self.dfs(&mut path, *depth)?;
                 }
             }
+            Mode::Preflight => {
+                for script in PREFLIGHT {
+                    let init = self.session.reset()?;
+                    if !init.is_empty() {
+                        self.report(&[], &init)?;
+                        break;
+                    }
+                    let mut path: Vec<Op> = vec![];
+                    for step in script.iter() {
+                        let Some(op) = pf_op(*step, self.view()) else { continue };
+                        let out = self.session.step(&op, None)?;
+                        self.record(&path, &op, &out);
+                        path.push(op);
+                        if !out.issues.is_empty() {
+                            let p = path.clone();
+                            self.report(&p, &out.issues)?;
+                            break;
+                        }
+                    }
+                    self.local.sequences += 1;
+                }
+            }
             Mode::Random { sequences, length, seed } => {
                 let mut rng = Rng::new(*seed);
                 for s in 0..*sequences {
@@ -2059,13 +2393,65 @@ fn all_configs() -> Vec<Config> {
     let mut v = vec![];
     for ty in TYPES {
         for cap in CAPS {
+            // the heap-owning element type: two capacities, two prefixes, random part only
+            if ty == "box" && cap != 2 && cap != 23 {
+                continue;
+            }
             v.push(Config { iv: Some(cap), ty, prefix: "reserved" });
         }
         for prefix in PREFIXES {
+            if ty == "box" && prefix == "unit" {
+                continue;
+            }
             v.push(Config { iv: None, ty, prefix });
         }
     }
     v
+}
+
+/// Pre-flight: targeted boundary sequences, instantiated on the live state.
+#[derive(Clone, Copy, Debug)]
+enum Pf {
+    /// `extend_from_slice` of exactly what still fits
+    FillToCap,
+    Push,
+    /// `reserve_exact(remaining + 3)` (ThinVec)
+    ReserveExactBeyond,
+    ShrinkFit,
+    /// `extend(iter)` whose size hint is exactly the remaining capacity, `n` more items follow
+    ExtIterExact(usize),
+    /// `from_iter` whose size hint is the capacity it will get, one more item follows
+    FromIterExact,
+}
+
+const PREFLIGHT: &[&[Pf]] = &[
+    &[Pf::ExtIterExact(1)],
+    &[Pf::ExtIterExact(2)],
+    &[Pf::FillToCap, Pf::ExtIterExact(1)],
+    &[Pf::Push, Pf::ReserveExactBeyond, Pf::ExtIterExact(1)],
+    &[Pf::Push, Pf::ReserveExactBeyond, Pf::ExtIterExact(2), Pf::Push],
+    &[Pf::Push, Pf::ShrinkFit, Pf::ExtIterExact(1), Pf::Push],
+    &[Pf::FromIterExact, Pf::Push],
+    &[Pf::FillToCap, Pf::Push, Pf::ShrinkFit, Pf::Push],
+];
+
+fn pf_op(step: Pf, v: View) -> Option<Op> {
+    let m = v.modulus;
+    let fit = v.fit();
+    match step {
+        Pf::FillToCap if fit > 0 => Some(Op::ExtSlice(payload(fit, 50, m))),
+        Pf::FillToCap => None,
+        Pf::Push => Some(Op::Push(7 % m)),
+        Pf::ReserveExactBeyond if !v.iv => Some(Op::ReserveExact(fit + 3)),
+        Pf::ShrinkFit if !v.iv => Some(Op::ShrinkFit),
+        Pf::ReserveExactBeyond | Pf::ShrinkFit => None,
+        Pf::ExtIterExact(extra) => Some(Op::ExtIter(fit, payload(fit + extra, 90, m))),
+        Pf::FromIterExact if v.iv => Some(Op::From(Src::Iter, v.cap - 1, payload(v.cap, 20, m))),
+        Pf::FromIterExact => {
+            let h = v.min_cap.min(130);
+            Some(Op::From(Src::Iter, h, payload(h + 1, 20, m)))
+        }
+    }
 }
 
 fn jobs_for(tier: &str, seed: u64) -> Vec<Job> {
@@ -2082,20 +2468,25 @@ fn jobs_for(tier: &str, seed: u64) -> Vec<Job> {
             (true, Some(1), "u64", _) | (true, Some(2), "unit" | "p16", _) | (true, Some(7), "a64", _) => 4,
             (true, None, _, "reserved") | (true, None, "u8", "unit") | (true, None, "u64", "p32") => 4,
             (true, _, _, _) => 3,
-            (false, Some(_), "u8", _) => 3,
-            (false, Some(2 | 23), _, _) => 3,
+            (false, Some(1 | 2 | 7 | 23), "u8", _) => 3,
+            (false, Some(2), _, _) => 3,
             (false, Some(_), _, _) => 2,
-            (false, None, _, _) => 3,
+            (false, None, _, "reserved") => 3,
+            (false, None, "u8", "unit") | (false, None, "u64" | "a64", "p32") => 3,
+            (false, None, _, _) => 2,
         };
         for start in 0..3 {
-            jobs.push(Job { cfg: cfg.clone(), mode: Mode::Exhaustive { depth, start } });
+            if cfg.ty != "box" {
+                jobs.push(Job { cfg: cfg.clone(), mode: Mode::Exhaustive { depth, start } });
+            }
         }
         jobs.push(Job { cfg, mode: Mode::Random { sequences, length, seed: rng.next_u64() } });
     }
     // the (cheap) random jobs first, then the enumerations, deepest first
     jobs.sort_by_key(|j| match j.mode {
-        Mode::Random { .. } => (0, 0),
-        Mode::Exhaustive { depth, .. } => (1, usize::MAX - depth),
+        Mode::Preflight => (0, 0),
+        Mode::Random { .. } => (1, 0),
+        Mode::Exhaustive { depth, .. } => (2, usize::MAX - depth),
     });
     jobs
 }
@@ -2239,9 +2630,43 @@ fn main() {
         }
     }
 
-    let jobs = Arc::new(Mutex::new(jobs_for(&cli.tier, cli.seed)));
+    // crash localisation mode
+    if let Ok(path) = std::env::var("VERIF_TRACE") {
+        if !path.is_empty() {
+            match std::fs::OpenOptions::new().write(true).create(true).truncate(true).open(&path) {
+                Ok(f) => {
+                    let _ = TRACE.set(f);
+                }
+                Err(e) => {
+                    eprintln!("vecdrive: VERIF_TRACE={path}: {e}");
+                    std::process::exit(2);
+                }
+            }
+        }
+    }
+
     let stats = Arc::new(Mutex::new(Stats::default()));
-    let threads = std::thread::available_parallelism().map(|n| n.get()).unwrap_or(4).min(16);
+
+    // phase 1: pre-flight, single-threaded, stops at the first configuration with a disagreement
+    if !cli.extra.iter().any(|a| a == "--no-preflight") {
+        for cfg in all_configs() {
+            if !run_job(&Job { cfg, mode: Mode::Preflight }, &lean, &stats) {
+                break;
+            }
+            if !stats.lock().unwrap().disagreements.is_empty() {
+                TRUNCATED.store(true, std::sync::atomic::Ordering::Relaxed);
+                finish(&cli.tier, cli.seed, &out_path, &stats.lock().unwrap(), started);
+            }
+        }
+    }
+
+    // phase 2: random sequences, then the bounded-exhaustive enumerations
+    let jobs = Arc::new(Mutex::new(jobs_for(&cli.tier, cli.seed)));
+    let threads = if tracing() {
+        1
+    } else {
+        std::thread::available_parallelism().map(|n| n.get()).unwrap_or(4).min(16)
+    };
     let mut handles = vec![];
     for _ in 0..threads {
         let jobs = jobs.clone();
@@ -2255,18 +2680,9 @@ fn main() {
                 }
                 q.remove(0)
             };
-            let session = match Session::new(job.cfg.clone(), &lean) {
-                Ok(s) => s,
-                Err(e) => {
-                    stats.lock().unwrap().errors.push(e);
-                    break;
-                }
-            };
-            let mut w = Worker { session, stats: &stats, local: Stats::default(), found: 0 };
-            if let Err(e) = w.run(&job) {
-                stats.lock().unwrap().errors.push(format!("{}: {e}", job.cfg.line()));
+            if !run_job(&job, &lean, &stats) {
+                break;
             }
-            w.merge();
         }));
     }
     for h in handles {
@@ -2275,8 +2691,30 @@ fn main() {
         }
     }
     let stats = stats.lock().unwrap();
+    finish(&cli.tier, cli.seed, &out_path, &stats, started)
+}
+
+/// Runs one job and merges its statistics; `false` = the Lean driver could not be started.
+fn run_job(job: &Job, lean: &str, stats: &Mutex<Stats>) -> bool {
+    let session = match Session::new(job.cfg.clone(), lean) {
+        Ok(s) => s,
+        Err(e) => {
+            stats.lock().unwrap().errors.push(e);
+            return false;
+        }
+    };
+    let mut w = Worker { session, stats, local: Stats::default(), found: 0 };
+    if let Err(e) = w.run(job) {
+        stats.lock().unwrap().errors.push(format!("{}: {e}", job.cfg.line()));
+    }
+    w.merge();
+    true
+}
+
+/// Writes stats.json, prints the summary, exits with the contract's code.
+fn finish(tier: &str, seed: u64, out_path: &str, stats: &Stats, started: std::time::Instant) -> ! {
     let elapsed = started.elapsed().as_secs_f64();
-    if let Err(e) = write_stats(&out_path, &cli.tier, cli.seed, &stats, elapsed) {
+    if let Err(e) = write_stats(out_path, tier, seed, stats, elapsed) {
         eprintln!("vecdrive: cannot write {out_path}: {e}");
         std::process::exit(2);
     }
@@ -2284,8 +2722,8 @@ fn main() {
     println!(
         "vecdrive: tier={} seed={} evaluations={} sequences={} distinct_nontrivial={} \
          impl-vs-oracle={} impl-vs-model={} monitor={} errors={} ({elapsed:.1}s)",
-        cli.tier,
-        cli.seed,
+        tier,
+        seed,
         stats.evaluations,
         stats.sequences,
         stats.nontrivial.len(),
